@@ -20,19 +20,19 @@ import (
 
 func main() {
 	var (
-		property = flag.String("property", "", "property id (C01…C19) or 'all'")
-		tier     = flag.String("tier", "", "quick | thorough (default: $VERIF_TIER or quick)")
-		repo     = flag.String("repo", "/repo", "repository to analyse")
-		verif    = flag.String("verif", "", "verification directory (default: directory above the binary, or /verif)")
-		explain  = flag.String("explain", "", "replay file: re-evaluate the property and print the obligation recorded there")
-		self     = flag.String("selftest", "", "run the checker self-test (broken + benign variants) for a property id or 'all'")
-		dump     = flag.String("dump", "", "debug: dump terms/facts of a function, e.g. header.Verify")
-		jobs     = flag.Int("j", 8, "parallel child processes for self-tests")
-		variant  = flag.String("variant", "", "internal: run one self-test variant (prop/index or prop/base)")
-		warm     = flag.Bool("warm", false, "load /repo once to warm the go build cache (used by setup_cmd)")
-		manifest = flag.Bool("manifest", false, "regenerate MANIFEST.json from the rule registry")
-		mutate   = flag.String("mutate", "", "run the systematic mutation analysis of a property's rule (id or 'all') and print the survivors")
-		maxMut   = flag.Int("max-mutants", 0, "cap on the number of mutants per property (0 = all)")
+		property     = flag.String("property", "", "property id (C01…C19) or 'all'")
+		tier         = flag.String("tier", "", "quick | thorough (default: $VERIF_TIER or quick)")
+		repo         = flag.String("repo", "/repo", "repository to analyse")
+		verif        = flag.String("verif", "", "verification directory (default: directory above the binary, or /verif)")
+		explain      = flag.String("explain", "", "replay file: re-evaluate the property and print the obligation recorded there")
+		self         = flag.String("selftest", "", "run the checker self-test (broken + benign variants) for a property id or 'all'")
+		dump         = flag.String("dump", "", "debug: dump terms/facts of a function, e.g. header.Verify")
+		jobs         = flag.Int("j", 8, "parallel child processes for self-tests")
+		variant      = flag.String("variant", "", "internal: run one self-test variant (prop/index or prop/base)")
+		warm         = flag.Bool("warm", false, "load /repo once to warm the go build cache (used by setup_cmd)")
+		manifest     = flag.Bool("manifest", false, "regenerate MANIFEST.json from the rule registry")
+		mutate       = flag.String("mutate", "", "run the systematic mutation analysis of a property's rule (id or 'all') and print the survivors")
+		maxMut       = flag.Int("max-mutants", 0, "cap on the number of mutants per property (0 = all)")
 		describeFlag = flag.Bool("describe", false, "print the per-property section of DESIGN.md (markdown) from the rule registry and a live run")
 	)
 	flag.Parse()
